@@ -316,8 +316,9 @@ func trimStack(s string) string {
 // ---- runner -------------------------------------------------------------------------------------------------
 
 type runner struct {
-	r      *vreport.Run
-	pruned int64
+	r             *vreport.Run
+	pruned        int64
+	seqNontrivial bool // some step of the sequence that runSeq ran last was non-trivial
 }
 
 func (rn *runner) report(spec *pluginSpec, c *cfgSpec, events []string, v *viol) {
@@ -325,25 +326,20 @@ func (rn *runner) report(spec *pluginSpec, c *cfgSpec, events []string, v *viol)
 	rn.r.Violation(v.clause, v.features, fmt.Sprintf("plugin=%s config=%s events=%s\n%s", spec.Type, c.JSON, clip(strings.Join(events, " ; ")), v.detail), tc)
 }
 
-func (rn *runner) account(spec *pluginSpec, c *cfgSpec, ci int, doc string, so stepOut) {
+// account records one executed step; it reports whether the step was non-trivial.
+func (rn *runner) account(spec *pluginSpec, c *cfgSpec, ci int, doc string, so stepOut) bool {
 	r := rn.r
 	r.Steps(1)
 	if spec.Volatile != nil && spec.Volatile(c) {
-		// the result / content depends on the clock: count by a clock-free rule
-		if doc != timeoutDoc && doc != "{}" {
-			r.Nontrivial()
-		}
-	} else if so.res != pipeline.ActionPass || so.sideband > 0 || (so.out != "" && so.out != doc) {
-		r.Nontrivial()
-	}
-	if spec.Volatile != nil && spec.Volatile(c) {
 		r.Outcome(spec.Type, fmt.Sprint(ci), "clock-dependent")
-		return
+		// the result / content depends on the clock (or on map order): decide by a clock-free rule
+		return doc != timeoutDoc && doc != "{}"
 	}
 	if outcomeDump != nil {
 		fmt.Fprintf(outcomeDump, "%s|%d|%s|%d|%s\n", spec.Type, ci, resultNames[so.res], so.sideband, so.out)
 	}
 	r.Outcome(spec.Type, fmt.Sprint(ci), resultNames[so.res], so.out, fmt.Sprint(so.sideband))
+	return so.res != pipeline.ActionPass || so.sideband > 0 || (so.out != "" && so.out != doc)
 }
 
 // runSeq runs the events on a fresh instance; it stops at the first violation and returns it (with the prefix length).
@@ -354,6 +350,7 @@ func (rn *runner) runSeq(spec *pluginSpec, c *cfgSpec, ci int, events []string, 
 		panic("c13: config was accepted before and is rejected now: " + c.JSON + ": " + reason)
 	}
 	defer in.stop()
+	rn.seqNontrivial = false
 	last := pipeline.ActionPass
 	cutAt = -1
 	for i, doc := range events {
@@ -364,8 +361,8 @@ func (rn *runner) runSeq(spec *pluginSpec, c *cfgSpec, ci int, events []string, 
 		if v != nil {
 			return v, i + 1, -1
 		}
-		if record {
-			rn.account(spec, c, ci, doc, so)
+		if record && rn.account(spec, c, ci, doc, so) {
+			rn.seqNontrivial = true
 		}
 		last = so.res
 	}
@@ -408,7 +405,9 @@ func (rn *runner) runBlock(spec *pluginSpec, c *cfgSpec, ci int, docs []string) 
 			last = pipeline.ActionPass
 			continue
 		}
-		rn.account(spec, c, ci, doc, so)
+		if rn.account(spec, c, ci, doc, so) {
+			r.Nontrivial()
+		}
 		r.Sample(map[string]any{"plugin": spec.Type, "config": c.JSON, "event": clip(doc), "result": resultNames[so.res], "after": clip(so.out)})
 	}
 }
@@ -427,7 +426,11 @@ func (rn *runner) runPrefixed(spec *pluginSpec, c *cfgSpec, ci int, prefix, docs
 		r.Case()
 		r.Count(spec.Type+".cases", 1)
 		r.Count(spec.Type+".prefixed", 1)
-		if v, upto, _ := rn.runSeq(spec, c, ci, events, true); v != nil {
+		v, upto, _ := rn.runSeq(spec, c, ci, events, true)
+		if rn.seqNontrivial {
+			r.Nontrivial()
+		}
+		if v != nil {
 			rn.report(spec, c, events[:upto], v)
 		}
 	}
@@ -480,6 +483,9 @@ func (rn *runner) runOneSequence(spec *pluginSpec, c *cfgSpec, ci int, events []
 		}
 	}
 	r.Case()
+	if rn.seqNontrivial {
+		r.Nontrivial()
+	}
 	r.Count(spec.Type+".cases", 1)
 	r.Count(spec.Type+".sequences", 1)
 	if v != nil {
@@ -600,15 +606,15 @@ func TestVerif(t *testing.T) {
 		return
 	}
 
-	capPerConfig, otherTier, tiers := 4000, "other-quick", []string{"full", "medium", "small", "tiny"}
+	capPerConfig, otherTier, tiers := 12000, "other-quick", []string{"full", "medium", "small", "tiny"}
 	if r.Thorough() {
-		capPerConfig, otherTier, tiers = 60000, "other-thorough", []string{"rich", "full", "medium", "small", "tiny"}
+		capPerConfig, otherTier, tiers = 250000, "other-thorough", []string{"rich", "full", "medium", "small", "tiny"}
 	}
 	r.Bound("max_single_events_per_config", capPerConfig)
 	r.Bound("max_sequence_length", map[bool]int{false: 3, true: 4}[r.Thorough()])
 	r.Bound("event_depth", 2)
 	r.Bound("plugins", len(specs))
-	r.Rule("per accepted config: every depth<=2 object over the named fields + one other key with leaves of the alphabet tier that fits the per-config cap (full 26 / medium 14 / small 8 / tiny 4 leaves + plugin-specific strings) plus root shapes, each on a warm instance; every sequence of 3 events over the per-config sequence alphabet (+ time-out where deliverable) on a fresh instance; non-trivial = result is not Pass, or the event changed, or something was propagated/spawned; distinct = distinct (plugin, config, result, encoded event) outcomes")
+	r.Rule("per accepted config: every depth<=2 object over the named fields + one other key with leaves of the alphabet tier that fits the per-config cap (full 26 / medium 14 / small 8 / tiny 4 leaves + plugin-specific strings) plus root shapes, each on a warm instance; every sequence of 3 events over the per-config sequence alphabet (+ time-out where deliverable) on a fresh instance; non-trivial = a case in which some step returned something else than Pass, or changed the event, or propagated/spawned something; distinct = distinct (plugin, config, result, encoded event) outcomes")
 	r.Assume("insane-json decodes a raw 0xff byte inside a string: " + fmt.Sprint(decodable("{\"a\":\"\xff\"}")))
 
 	var items []work
